@@ -48,7 +48,7 @@ REQUIRED = ["collect_perm_invariant", "complete_eq_of_cover", "complete_order_ir
             "consume_positional", "foldl_pairs", "pairs_length", "mpLayer_eq_single", "mp_eq_single", "mp_eq_mp",
             "build_returns_reference", "build_ignores_scratch", "rebuild_idempotent", "run_length", "cfg_invariant",
             "histories_agree", "poolMap_any_interleaving", "unordered_collection_depends_on_order",
-            "stale_matrix_is_told_apart"]
+            "stale_matrix_is_told_apart", "chunkSize_spec", "poolMap_eq_pos", "reconfigure_between_builds"]
 
 
 def sc_module():
@@ -296,14 +296,19 @@ def pool_patch(factory):
 
 
 # ------------------------------------------------------------------------------------------ configurations
-def gen_config(rng, thorough=False, max_wfs=None, n_wfs=None):
+def gen_config(rng, thorough=False, max_wfs=None, n_wfs=None, hetero=False):
+    """`hetero`: the class of systems on which the two assembly paths, and a first and a second build, have the most room to
+    differ — sensors of different sub-aperture size, an off-axis NATURAL guide star (cone factor 1: positions are only
+    translated) next to a laser guide star, at least two layers, at least one of them well above the ground"""
     exact = n_wfs
     n_wfs = rng.choice([1, 2, 2, 3, 3, 4] + ([5] if thorough else []))
     if max_wfs:
         n_wfs = min(n_wfs, max_wfs)
     if exact:
         n_wfs = exact
-    n_layers = rng.choice([1, 2, 2, 3, 4])
+    if hetero and not exact:
+        n_wfs = max(n_wfs, 2)
+    n_layers = rng.choice([2, 2, 3, 4] if hetero else [1, 2, 2, 3, 4])
     tel = rng.choice([2.0, 4.2, 8.0])
     masks, diams = [], []
     for _ in range(n_wfs):
@@ -314,7 +319,13 @@ def gen_config(rng, thorough=False, max_wfs=None, n_wfs=None):
         masks.append(m)
         diams.append(tel / nx * rng.choice([1.0, 1.0, 0.9]))
     gs_alt = [rng.choice([0, 0, 90000.0, 80000.0 + 1000 * rng.randint(0, 20)]) for _ in range(n_wfs)]
-    identical = rng.random() < 0.5
+    identical = rng.random() < 0.5 and not hetero
+    if hetero:
+        gs_alt[0] = 0
+        if n_wfs > 1:
+            gs_alt[1] = rng.choice([90000.0, 80000.0 + 1000 * rng.randint(0, 20)])
+            if abs(diams[1] - diams[0]) < 1e-9:
+                diams[1] = diams[0] * 0.8
     if identical:                                 # the usual instrument: identical sensors looking in different directions —
         masks = [masks[0]] * n_wfs                # every block has the same shape, so a mixed-up result is silently accepted
         diams = [diams[0]] * n_wfs
@@ -329,6 +340,8 @@ def gen_config(rng, thorough=False, max_wfs=None, n_wfs=None):
     alts = sorted(rng.choice([0.0, 500.0, 2000.0, 5000.0, 10000.0, 15000.0]) + rng.uniform(0, 100) for _ in range(n_layers))
     if rng.random() < 0.5:
         alts[0] = 0.0
+    if hetero and alts[-1] < 2000.0:
+        alts[-1] = rng.choice([5000.0, 10000.0, 15000.0]) + rng.uniform(0, 100)
     r0s = [rng.uniform(0.05, 1.0) for _ in range(n_layers)]
     L0s = [rng.choice([10.0, 25.0, 50.0, 100.0]) for _ in range(n_layers)]
     return {"n_wfs": n_wfs, "pupil_masks": masks, "telescope_diameter": tel, "subap_diameters": diams,
@@ -348,7 +361,36 @@ def make_obj(cfg, threads=1):
 
 def cfg_class(cfg):
     same = all(m == cfg["pupil_masks"][0] for m in cfg["pupil_masks"]) and cfg["n_wfs"] > 1
-    return "wfs%d:layers%d%s" % (cfg["n_wfs"], cfg["n_layers"], ":identical-sensors" if same else "")
+    ngs_off = any(a == 0 and any(abs(v) > 0 for v in p) for a, p in zip(cfg["gs_altitudes"], cfg["gs_positions"]))
+    up = any(h > 0 for h in cfg["layer_altitudes"])
+    mixed = len({(a != 0, round(d, 9)) for a, d in zip(cfg["gs_altitudes"], cfg["subap_diameters"])}) > 1
+    return "wfs%d:layers%d%s%s%s" % (cfg["n_wfs"], cfg["n_layers"], ":identical-sensors" if same else "",
+                                   ":offaxis-ngs+elevated" if ngs_off and up else "", ":mixed-diam/gs+elevated" if mixed and up else "")
+
+
+def _as_container(cfg, value):
+    return numpy.array(value) if cfg.get("containers") == "ndarray" else list(value)
+
+
+def gen_reconfigure(rng, cfg):
+    """a change of constructor attributes a caller may make between two builds (the number of sub-apertures is computed by the
+    constructor, so masks are left alone): ["C", attribute, new value]"""
+    f = rng.choice(["layer_r0s", "layer_L0s", "wfs_wavelengths", "gs_positions", "layer_altitudes", "gs_altitudes", "subap_diameters"])
+    if f == "layer_r0s":
+        v = [r * rng.choice([0.5, 2.0, 1.3]) for r in cfg[f]]
+    elif f == "layer_L0s":
+        v = [rng.choice([10.0, 25.0, 50.0, 100.0]) for _ in cfg[f]]
+    elif f == "wfs_wavelengths":
+        v = [w * rng.choice([1.0, 2.0, 0.5]) for w in cfg[f]][::-1]
+    elif f == "gs_positions":
+        v = [[rng.uniform(-30, 30), rng.uniform(-30, 30)] for _ in cfg[f]]
+    elif f == "layer_altitudes":
+        v = [h + 250.0 for h in cfg[f]]
+    elif f == "gs_altitudes":
+        v = [90000.0 if a == 0 else 0 for a in cfg[f]]
+    else:
+        v = [d * 0.9 for d in cfg[f]]
+    return ["C", f, v]
 
 
 def n_tasks(cfg):
@@ -419,12 +461,19 @@ def run_history(cfg, scen, ref=None):
     attrs = {}
     if scen.get("pool") == "real" and scen.get("delay_seed") is not None:
         attrs["wfs_covariance"] = _Delayed(sc.wfs_covariance, scen["delay_seed"])
-    prev_mode, edited, earlier = None, False, []
+    prev_mode, edited, earlier, reconf = None, False, [], False
     with pool_patch(factory), patched(**attrs):
         try:
             for n_op, op in enumerate(scen["ops"]):
                 if op[0] == "T":
                     obj.threads = op[1]
+                elif op[0] == "C":
+                    # the caller assigns new constructor attributes: from here on the reference is a FRESH object made with them
+                    cfg = dict(cfg)
+                    cfg[op[1]] = op[2]
+                    setattr(obj, op[1], numpy.array(op[2]) if op[1] == "layer_altitudes" else _as_container(cfg, op[2]))
+                    ref = make_obj(cfg, 1).make_covariance_matrix()
+                    reconf = True
                 elif op[0] == "E":
                     if outs:
                         apply_edit(outs[-1], op[1])
@@ -452,9 +501,12 @@ def run_history(cfg, scen, ref=None):
                         if prev_mode is None:
                             key = "%s≠single:first-build" % mode
                         else:
-                            key = "rebuild:%s→%s%s" % (prev_mode, mode, ":after-inplace-edit" if edited else "")
+                            key = "rebuild:%s→%s%s%s" % (prev_mode, mode, ":after-inplace-edit" if edited else "",
+                                                          ":after-reconfigure" if reconf else "")
                         fails.append((key, "build #%d (%s, threads=%s, schedule %s) differs from the single-process matrix of a "
-                                      "fresh object: %s" % (len(outs), mode, obj.threads, op[1:] or "-", first_diff(out, ref)), n_op))
+                                      "fresh object%s: %s" % (len(outs), mode, obj.threads, op[1:] or "-",
+                                                               " made with the re-assigned attributes" if reconf else "",
+                                                               first_diff(out, ref)), n_op))
                     for k, (arr, snap) in enumerate(earlier):
                         # not a violation of C03 by itself (a library may hand out one buffer): recorded as an observation;
                         # if the values handed out are wrong the comparison above fails
@@ -489,13 +541,18 @@ class _Delayed(object):
         return out
 
 
-def gen_history(rng, n_ops, tasks):
+def gen_history(rng, n_ops, tasks, cfg=None, reconfigure=False):
     threads0 = rng.choice([1, 1, 2, 3, 4, 8, tasks + 3])
     ops, built = [], False
+    cur = cfg
     for _ in range(n_ops):
         c = rng.random()
         if c < 0.3:
-            ops.append(["T", rng.choice([1, 1, 2, 3, 5, 8, 4 * tasks + 1])])
+            ops.append(["T", rng.choice([1, 1, 2, 3, 5, 8, 2 * tasks, 4 * tasks + 1])])
+        elif reconfigure and cur is not None and built and c < 0.55:
+            ops.append(gen_reconfigure(rng, cur))
+            cur = dict(cur)
+            cur[ops[-1][1]] = ops[-1][2]
         elif c < 0.42 and built:
             ops.append(["E", rng.choice(EDITS)])
         elif c < 0.5 and built:
@@ -520,7 +577,7 @@ def oracle(chk, quick):
     rng = chk.rng
     n_cfg = 24 if quick else 500
     for it in range(n_cfg):
-        cfg = gen_config(rng, thorough=not quick)
+        cfg = gen_config(rng, thorough=not quick, hetero=(it % 3 == 0))
         tasks = n_tasks(cfg)
         chk.count("oracle:" + cfg_class(cfg))
         o1, o2 = make_obj(cfg, 1), make_obj(cfg, 1)
@@ -538,13 +595,33 @@ def oracle(chk, quick):
             chk.case(("oracle-fresh", it, kind, k))
             chk.count("schedule:" + kind)
             report(chk, cfg, scen, fails)
+        # MANY workers for few tasks (a pool larger than one layer's task list invites batching several layers per round)
+        for k in (2 * tasks, 3 * tasks + 1, 4 * tasks + 1):
+            scen = {"threads0": max(k, 2), "pool": "controlled", "pickled": rng.random() < 0.5,
+                    "ops": [["B", rng.choice(SCHED_KINDS), rng.randrange(10 ** 6)], ["B", rng.choice(SCHED_KINDS), rng.randrange(10 ** 6)]]}
+            fails, outs = run_history(cfg, scen, ref)
+            chk.oracle_cases += len(outs)
+            chk.case(("oracle-many-workers", it, k))
+            chk.count("many-workers:layers%s" % (">=2" if cfg["n_layers"] >= 2 else "1"))
+            report(chk, cfg, scen, fails)
+        # a second and third build of the same object in every order of modes (first build already compared above)
+        for modes in ((1, 1), (1, 3), (3, 1)):
+            scen = {"threads0": modes[0], "pool": "controlled", "pickled": True,
+                    "ops": [["B", "random", rng.randrange(10 ** 6)], ["T", modes[1]], ["B", "random", rng.randrange(10 ** 6)],
+                            ["B", "reverse", 0]]}
+            fails, outs = run_history(cfg, scen, ref)
+            chk.oracle_cases += len(outs)
+            chk.case(("oracle-rebuild", it, modes))
+            chk.count("rebuild-modes")
+            report(chk, cfg, scen, fails)
         # histories
         for h in range(2 if quick else 6):
-            scen = gen_history(rng, rng.randint(3, 7 if quick else 12), tasks)
+            scen = gen_history(rng, rng.randint(3, 7 if quick else 12), tasks, cfg, reconfigure=(h % 2 == 1))
             fails, outs = run_history(cfg, scen, ref)
             chk.oracle_cases += len(outs)
             chk.case(("oracle-history", it, h), sample={"history": scen["ops"][:6]} if it == 0 and h == 0 else None)
             chk.count("history-builds", len(outs))
+            chk.count("history-reconfigure-ops", sum(1 for op in scen["ops"] if op[0] == "C"))
             report(chk, cfg, scen, fails)
     # every completion order
     for n_wfs, limit in ((2, None), (3, 120 if quick else None)):
@@ -568,7 +645,7 @@ def oracle(chk, quick):
     # real processes
     reals = [(1, 0), (2, 0), (3, 0), (4, 0), (8, 0)] if quick else [(w, r) for w in range(1, 9) for r in range(8)]
     for w, r in reals:
-        cfg = gen_config(rng, thorough=not quick)
+        cfg = gen_config(rng, thorough=not quick, hetero=(w % 2 == 0))
         ref = make_obj(cfg, 1).make_covariance_matrix()
         if w == 1:
             ops = [["B"], ["MP1"], ["T", 2], ["B"], ["MP1"]]
@@ -877,12 +954,14 @@ def corr_history(chk, quick):
                         folds.append((cfg, list(TRACE), out.copy()))
         lines.append("C03 hist %d %d %d %s" % (cfg["n_wfs"], cfg["n_layers"], threads0, " ".join(wire)))
         cm = getattr(obj, "cov_mats", [])
-        if cm == ["garbage"]:
+        if not isinstance(cm, (list, tuple)):
+            cm = list(cm)
+        if len(cm) == 1 and isinstance(cm[0], str) and cm[0] == "garbage":
             cm_s = "0.8.8.8"
-        elif not cm:
+        elif len(cm) == 0:
             cm_s = "none"
         else:
-            cm_s = " ".join("%d.%d.%d.%d" % tuple(r[0].tag) if isinstance(r, tuple) and isinstance(r[0], Tagged) else "?" for r in cm)
+            cm_s = " ".join("%d.%d.%d.%d" % tuple(r[0].tag) if isinstance(r, tuple) and len(r) and isinstance(r[0], Tagged) else "?" for r in cm)
         expect.append((";".join(answers) if answers else "nobuild") + " # " + cm_s)
         hung.append(state.get("hung", False))
         descr.append(("hist", it, cfg_class(cfg), len(ops)))
@@ -1148,7 +1227,10 @@ def run(chk):
     quick = chk.tier == "quick"
     chk.rule = ("bitwise everywhere (no tolerance): model answers vs CPython MapResult / vs the operation log of the real object "
                 "(integers) / vs the real float32 matrix (bit patterns); oracle: int32 views of real matrices equal across worker "
-                "counts, schedules, rebuild histories; distinct = distinct (configuration, schedule, history)")
+                "counts (2 … 4·tasks+1, i.e. also pools much larger than one layer's task list), schedules, rebuild histories "
+                "(thread toggles, in-place edits of returned matrices, re-assigned constructor attributes — then against a fresh "
+                "object made with the new attributes); every third configuration is heterogeneous (different sub-aperture sizes, "
+                "off-axis NGS + LGS, >= 2 layers, one well above ground); distinct = distinct (configuration, schedule, history)")
     chk.assumptions = [
         "wfs_covariance, the four `+=` of one task and mirror_covariance_matrix are functions of their arguments "
         "(uninterpreted in the model; sampled by the oracle under permuted execution orders and across processes)",
@@ -1156,15 +1238,24 @@ def run(chk):
         "CPython's MapResult slice assignment is modelled per chunk slot (checked against the real MapResult each run)",
         "pickling of arguments/results between processes preserves float64 bit patterns (sampled, not modelled)",
         "worker processes compute with the same libm/BLAS as the parent (fork); cross-machine pools are outside the model",
+        "`poolMap_eq` at workers = 0 holds only through Lean's n % 0 = n (no such pool exists: Pool(0) raises, `build` = none); the "
+        "statement about CPython is `poolMap_eq_pos` / `chunkSize_spec` (workers >= 1)",
+        "re-assigned constructor attributes between builds: `reconfigure_between_builds` is a corollary of `rebuild_idempotent` in the "
+        "model (cfg is read afresh by every build); on the real object it is sampled by the oracle only (the Lean state-machine "
+        "correspondence does not replay such histories); masks are not re-assigned (n_subaps is computed by the constructor)",
     ]
     chk.build_and_audit("AoVerif.Props.C03", "AoVerif.Props.C03", REQUIRED)
     static_tie(chk)
     static_fields(chk)
-    try:
-        corr_poolmap(chk, quick)
-        corr_history(chk, quick)
-    except common.LeanError as ex:
-        chk.broke("correspondence", "the C03 driver does not build / run", str(ex))
+    for part in (corr_poolmap, corr_history):
+        try:
+            part(chk, quick)
+        except common.LeanError as ex:
+            chk.broke("correspondence", "the C03 driver does not build / run", str(ex))
+        except (ValueError, TypeError, LookupError, AttributeError) as ex:
+            # the instrumentation (tagged results, operation log) assumes the shape of the code the model mirrors; a library that
+            # no longer has that shape is a broken correspondence, not an infrastructure failure — the oracle below still decides
+            chk.broke("correspondence", "%s could not be carried out on this code: %s: %s" % (part.__name__, type(ex).__name__, ex))
     oracle(chk, quick)
 
 
